@@ -163,6 +163,11 @@ pub fn content_sweep(rep: &mut Report, thorough: bool) {
     for n in numbers() {
         cases.push((format!("number:{}", n), json!({"n": n, "l♭":[{"_id":"x","v":n}], "a":[n,[n]]}), None));
     }
+    // objects carrying the "#" member (constants::HASH_FIELD): bare character codes of every width and sign form,
+    // codes equal to the digest markers, non-codes, and the member next to other members
+    for h in ["41", "d", "e", "r", "0", "ffffffff", "000000042", "0000000000000041", "+41", "100000000", "zz", "4g"] {
+        cases.push((format!("hash-member:{}", h), json!({"l♭":[{"_id":"x","#":h}, {"_id":"y","#":h,"v":1}], "o♭":{"#":h}}), None));
+    }
     // two commits: second pack/object set differs from the first
     for s in strs.iter().filter(|s| s.chars().count() <= 2) {
         cases.push((format!("two-commits:{:?}", s), json!({"s": s, "l♭":[{"_id":"x","v":s}]}), Some(json!({"s": format!("{}{}", s, s), "l♭":[{"_id":"x","v":"z"},{"_id":"y","v":s}]}))));
